@@ -42,6 +42,25 @@ Proof.
   exact (walks_cert_sound h (write_back h lvl g1') ha strict Fn Hthm Hc).
 Qed.
 
+Theorem ins1_col_sound_c h ha lvl new e0 preds cls strict :
+  ins1_col_of h ha lvl new e0 preds cls = 1 ->
+  forall n e e' ds,
+    (exists b p, find h n = Some b /\ n_kind b = KOrig p) -> E Fn e e' ->
+    CTrace h (resolve_flat h) strict n e ds -> CTrace ha (resolve_flat ha) strict n e' ds.
+Proof.
+  unfold ins1_col_of.
+  destruct (existsb (fun p => match find h p with Some n => is_region n | None => true end) preds); [discriminate|].
+  destruct (walk_pre_ins h lvl TOP new e0 preds cls) eqn:Hpre; [|discriminate].
+  destruct (level_graph h lvl) as [g1|] eqn:Hlg; [|discriminate].
+  destruct (insert_block g1 new preds [e0] cls) as [g1'| |] eqn:Hib; try discriminate.
+  destruct (walks_cert h (write_back h lvl g1') ha) eqn:Hc; [|discriminate]. intros _.
+  destruct (insert_block_h_keeps_ctrace_b h lvl TOP new e0 preds cls strict Hpre) as [nl [g1a [g1b [Hl [HLG [Hib' Hthm]]]]]].
+  destruct (level_graph_collect h lvl g1 Hlg) as [nl' [Hl' HLG']].
+  rewrite Hl in Hl'. injection Hl' as <-. rewrite HLG in HLG'. injection HLG' as ->.
+  rewrite Hib in Hib'. injection Hib' as <-.
+  exact (ctrace_cert_sound h (write_back h lvl g1') ha strict Fn Hthm Hc).
+Qed.
+
 Definition ins_col2 (rows : list (list Z)) : Z :=
   let '(br, ar, op, st) := split_ib rows in
   match decode br, decode ar, op with
